@@ -1264,6 +1264,17 @@ def prof(profile):
     return {False: "debug", True: "release", "po": "preserve_order release", "po-debug": "preserve_order debug"}[profile]
 
 
+def po_unstable(e):
+    """IndexMap finds a key through its hash; a bool and a number that are == hash differently (C07's known finding
+    bool-number, likewise int vs float), so whether `1 in {true: 0}` holds depends on the per-map random hasher state -
+    even two evaluations of the same expression in one render disagree.  Such expressions are left to the default
+    build: a map (literal or dict()) together with numeric-ish atoms of more than one kind."""
+    subs = list(subexprs(e))
+    has_map = any(x[0] == "map" or (x[0] == "call" and x[1] in ("dict", "namespace")) or x == ("var", "cm") for x in subs)
+    kinds = {x[0] for x in subs if x[0] in ("bool", "int", "float")}
+    return has_map and len(kinds) >= 2
+
+
 def run_c04(reqs, release=False, workers=12):
     if not reqs:
         return []
@@ -1520,7 +1531,7 @@ def main():
         for rel in [False, True] + po_profiles:
             if isinstance(rel, str):
                 # the preserve_order build: the families and the first random expressions (quick), everything (thorough)
-                sel = [j for j in range(len(bex)) if b0 + j < po_limit]
+                sel = [j for j in range(len(bex)) if b0 + j < po_limit and not po_unstable(bex[j][0])]
                 part = run_c04_robust([reqs[j] for j in sel], release=rel)
                 resp = [None] * len(bex)
                 for j, r in zip(sel, part):
